@@ -31,6 +31,11 @@ class Rec2:
     v: Literal[0, 1]
     nxt: typing.Optional["Rec2"] = None
 @dataclasses.dataclass
+class Tree:
+    v: int
+    left: typing.Optional["Tree"] = None
+    right: typing.Optional["Tree"] = None
+@dataclasses.dataclass
 class Gen(Generic[T]):
     x: T
 class NoLoader:
@@ -50,7 +55,7 @@ POOL = {
  "List_int": typing.List[int], "list_int": list[int], "Seq_int": typing.Sequence[int], "list_bool": list[bool],
  "U_int_str": typing.Union[int, str], "U_str_int": typing.Union[str, int], "Opt_int": typing.Optional[int], "Opt_bool": typing.Optional[bool],
  "U_lit0_str": typing.Union[Literal[0], str], "U_litF_str": typing.Union[Literal[False], str],
- "MA": MA, "MB": MB, "MC": MC, "MD": MD, "ME": ME, "Rec": Rec, "Rec2": Rec2, "Gen_int": Gen[int], "Gen_bool": Gen[bool],
+ "MA": MA, "MB": MB, "MC": MC, "MD": MD, "ME": ME, "Rec": Rec, "Rec2": Rec2, "Tree": Tree, "L_OptTree": typing.List[typing.Optional[Tree]], "Gen_int": Gen[int], "Gen_bool": Gen[bool],
  "Gen_lit0": Gen[Literal[0]], "Gen_litF": Gen[Literal[False]],
  "N1": N1, "N2": N2, "Ann_a": Annotated[int, "a"], "Ann_b": Annotated[bool, "a"],
  "D_lit0": typing.Dict[str, Literal[0]], "D_litF": typing.Dict[str, Literal[False]], "T_lit1": typing.Tuple[Literal[1]], "T_litT": typing.Tuple[Literal[True]],
@@ -69,6 +74,8 @@ def wrap(kind, d):
     if kind == 5: return {"v": d, "children": [{"v": d}]}
     if kind == 6: return {"v": d, "nxt": {"v": d}}
     if kind == 7: return {}
+    if kind == 9: return {"v": d, "left": {"v": d, "right": {"v": d, "left": {"v": d}}}, "right": {"v": d, "right": {"v": d}}}
+    if kind == 10: return [None, {"v": d, "left": {"v": d, "right": {"v": d}}}]
     return [d, d]
 
 from adaptix import DebugTrail
@@ -97,6 +104,8 @@ def obj_for(name, d):
     if name in ("Gen_int", "Gen_bool", "Gen_lit0", "Gen_litF"): return Gen(x=d)
     if name == "Rec": return Rec(v=d, children=[Rec(v=d)])
     if name == "Rec2": return Rec2(v=d, nxt=Rec2(v=d))
+    if name == "Tree": return Tree(d, left=Tree(d, right=Tree(d, left=Tree(d))), right=Tree(d, right=Tree(d)))
+    if name == "L_OptTree": return [None, Tree(d, left=Tree(d, right=Tree(d)))]
     if name in ("E1", "L_E1"): return E1.A
     if name in ("E2", "L_E2"): return E2.A
     if name in ("D_lit0", "D_litF"): return {"k": d}
@@ -107,16 +116,16 @@ def obj_for(name, d):
 
 
 CONFUSABLE = ["lit01", "litFT", "lit01234", "litFT234", "lit_a0", "U_lit0_str", "MA", "MD", "Gen_int", "Gen_lit0", "List_int",
-              "U_int_str", "Opt_int", "N1", "Ann_a", "D_lit0", "T_lit1", "E1", "L_E1", "NoLoader"]
+              "U_int_str", "Opt_int", "N1", "Ann_a", "D_lit0", "T_lit1", "E1", "L_E1", "NoLoader", "Tree", "L_OptTree"]
 KINDS = {"MA": (2, 7), "MB": (2, 7), "MC": (2, 7), "MD": (2, 7), "ME": (2, 7), "Gen_int": (2, 7), "Gen_bool": (2, 7), "Gen_lit0": (2, 7),
-         "Gen_litF": (2, 7), "Rec": (5, 2), "Rec2": (6, 2), "D_lit0": (3, 7), "D_litF": (3, 7), "T_lit1": (4, 1), "T_litT": (4, 1),
+         "Gen_litF": (2, 7), "Rec": (5, 2), "Rec2": (6, 2), "Tree": (9, 2), "L_OptTree": (10, 1), "D_lit0": (3, 7), "D_litF": (3, 7), "T_lit1": (4, 1), "T_litT": (4, 1),
          "List_int": (1, 8), "list_int": (1, 8), "Seq_int": (1, 8), "list_bool": (1, 8), "NoLoader": (0, 2)}
 
 
 def probe_module(probe, quick, tmo):
     m = Module(f"c11_probe_{probe}").pre(POOL_SETUP)
     hist_names = CONFUSABLE if quick else None
-    kinds = KINDS.get(probe, (0, 1)) if quick else tuple(range(9))
+    kinds = KINDS.get(probe, (0, 1)) if quick else tuple(range(11))
     m.pre(f'''
 PROBE = {probe!r}
 HIST = []
@@ -170,7 +179,7 @@ def probe_dumper(hi, d):
         if rf[0] and not same(rf[1], rw[1]): return False
     return True
 ''')
-    bnd = ("history: every single get_loader/get_dumper of the " + ("20-type confusable sub-pool" if quick else "41-type pool") +
+    bnd = ("history: every single get_loader/get_dumper of the " + ("22-type confusable sub-pool" if quick else "43-type pool") +
            ", a failing load, and 5 two-step histories; probe = " + probe + "; datum: atom None|bool|int in [-1,5]|str symbolic in wrappers " +
            repr(kinds) + "; strict and lax")
     m.ob(f"hist_loader_{probe}", "hi: int, kind: int, d: Atom", "return probe_loader(hi, kind, d)",
@@ -301,11 +310,11 @@ def build(tier, seed):
     quick = tier == "quick"
     tmo = 120 if quick else 400
     probes = ["lit01", "litFT", "lit01234", "litFT234", "lit_a0", "lit_aF", "U_lit0_str", "U_litF_str", "MA", "MB", "MC", "MD", "ME",
-              "Rec", "Rec2", "Gen_int", "Gen_bool", "Gen_lit0", "Gen_litF", "list_int", "List_int", "Seq_int", "list_bool",
+              "Rec", "Rec2", "Tree", "L_OptTree", "Gen_int", "Gen_bool", "Gen_lit0", "Gen_litF", "list_int", "List_int", "Seq_int", "list_bool",
               "U_int_str", "U_str_int", "Opt_int", "Opt_bool", "N1", "N2", "Ann_a", "Ann_b", "D_lit0", "D_litF", "T_lit1", "T_litT",
               "E1", "E2", "L_E1", "L_E2", "NoLoader"]
     if quick:
-        probes = ["lit01", "litFT", "litFT234", "lit_aF", "U_litF_str", "MB", "ME", "Rec", "Rec2", "Gen_bool", "Gen_litF", "list_int",
+        probes = ["lit01", "litFT", "litFT234", "lit_aF", "U_litF_str", "MB", "ME", "Rec", "Rec2", "Tree", "L_OptTree", "Gen_bool", "Gen_litF", "list_int",
                   "U_str_int", "Opt_bool", "N2", "Ann_b", "D_litF", "T_litT", "E2", "L_E2"]
     mods = [probe_module(p, quick, tmo) for p in probes]
     mk = Module("c11_key").pre(KEY_SETUP)
@@ -332,5 +341,5 @@ def build(tier, seed):
     return Plan("C11", mods + [mk, mi],
                 assumptions=["histories are enumerated natively (bounded family, stated as enumeration); the datum is symbolic",
                              "cached_call sites whose arguments are closures/enums/bools/classes are argued by identity; only the Literal site takes values"],
-                bounds={"pool": "41 types", "history length": "1 (all), 2 (confusable sub-pools)"},
+                bounds={"pool": "43 types", "history length": "1 (all), 2 (confusable sub-pools)"},
                 outside=["histories longer than 2", "concurrent use (C12)"])
